@@ -480,7 +480,9 @@ def decide(cx, prop, tier, seed, t_start):
         seq = seq_prefix(seqmaps.get(suite, {}), row['seq']) if row else None
         if seq is not None and found:
             try:
-                seq = shrink(cx, work, suite, seq, lambda x: failing(x, col))
+                # keep a failure that the listed findings do not explain (not just any rejection)
+                seq = shrink(cx, work, suite, seq, lambda x: failing(x, col) and not (
+                    x['f'].get(clscol) in known_classes and x['model'] not in ('DIFF', 'HANG', '?')))
             except Exception as e:
                 notes.append('shrink failed: %s' % e)
         body = dict(property=prop, kind=kind, suite=suite, seq=seq, detail=extra,
@@ -577,7 +579,7 @@ def do_replay(cx, prop, path):
     bad = False
     for r in rows:
         v = r['f'].get(spec['column'], 'na')
-        print('%-10s %-40s -> %s %r | model=%s %s | spec[%s]=%s class=%s' % (r['seq'], pretty_cmd(r['cmd'])[:40], r['kind'], r['payload'][:50], r['model'], r['detail'][:120], spec['column'], v, r['f'].get('cls')))
+        print('%-10s %-40s -> %s %r | model=%s %s | spec[%s]=%s class=%s' % (r['seq'], pretty_cmd(r['cmd'])[:40], r['kind'], r['payload'][:50], r['model'], r['detail'][:120], spec['column'], v, r['f'].get(spec.get('clscol', 'cls'))))
     if rows and failing(rows[-1], spec['column']):
         bad = True
         print('REPRODUCED: last transition still departs (model=%s, spec=%s)' % (rows[-1]['model'], rows[-1]['f'].get(spec['column'])))
